@@ -372,7 +372,40 @@ def programs(mido, size):
                                                             'keep': q}
         return make
 
+    def p_backlog(kind, n, how='receive'):
+        # one sender gets n messages ahead before anybody receives (batch
+        # limits in fan-in / drain paths sit beyond the small programs)
+        def make():
+            wa, wb = [], []
+            if kind == 'multi':
+                a = ByteDouble('a', wire_out=wa, wire_in=wa)
+                b = ByteDouble('b', wire_out=wb, wire_in=wb)
+                port = mido.ports.MultiPort([b, a])
+                mido.ports.random.perm = None
+                keep, out = (port, a, b), a
+                for x in (a, b, port):
+                    assert_coop(x)
+            elif kind == 'echo':
+                port = out = mido.ports.EchoPort()
+                keep = port
+                assert_coop(port)
+            else:
+                inp = ByteInput('in', wire_in=wa)
+                outp = ByteOutput('out', wire_out=wa)
+                port = out = mido.ports.IOPort(inp, outp)
+                keep = (port, inp, outp)
+                for x in keep:
+                    assert_coop(x)
+            sent = []
+            bodies = [sender_body(mido, out, 0, n, sent),
+                      receiver_body(mido, port, n, how)]
+            return bodies, lambda: {'sent': sent, 'keep': keep}
+        return make
+
     progs = {}
+    for kind in ('multi', 'echo', 'ioport'):
+        for n, how in ((9, 'receive'), (40, 'iter_pending'), (60, 'poll')):
+            progs[f'P8-backlog-{kind}-{n}-{how}'] = p_backlog(kind, n, how)
     if common.tier() == 'thorough':
         progs['P4b-multiport-receive-shuffled'] = p_multi((1, 0))
     progs.update({
@@ -391,6 +424,11 @@ def programs(mido, size):
         'P7-two-independent-ports': p_two_ports(),
     })
     return progs
+
+
+def step_budget(name):
+    # line events a thread may execute before it counts as livelocked
+    return 30000 if name.startswith('P8') else 3000
 
 
 def judge(name, exe, obs, choices, violation, outcomes):
@@ -477,7 +515,7 @@ def _worker(args):
     try:
         es.explore(progs[name], watched_files(mido, name), bound, check,
                    root=root, stats=stats, max_execs=budget,
-                   free_bound=fbound)
+                   free_bound=fbound, step_budget=step_budget(name))
     except es.HarnessLost as e:
         return ('lost', name, repr(e), stats, [], 0)
     return ('ok', name, None, stats, viols, len(outcomes), outcomes)
@@ -500,15 +538,20 @@ def run():
     jobs = []
     per_prog = {}
     for name in progs:
-        bound = 2 if thorough else 1
+        # thorough: one more preemption where the tree stays tractable
+        # (measured: the P2/P3/P4/P7 trees exceed 10 CPU-minutes each at
+        # bound 2), one more free-switch deviation everywhere
+        bound = 2 if thorough and name.startswith(('P1', 'P5', 'P6')) else 1
         if name.startswith('P5'):
             bound += 1
+        if name.startswith('P8'):
+            bound = 0       # long programs: switches at blocking points only
         bounds[name] = bound
         fbound = int(os.environ.get('VERIF_C10_FBOUND', 3 if thorough else 2))
         # determinism obligation: the default schedule twice, same observation
         watched = watched_files(mido, name)
-        e1, o1 = es.run_schedule(progs[name], [], watched)
-        e2, o2 = es.run_schedule(progs[name], [], watched)
+        e1, o1 = es.run_schedule(progs[name], [], watched, step_budget(name))
+        e2, o2 = es.run_schedule(progs[name], [], watched, step_budget(name))
         if (e1.choices, sorted(e1.results.items())) != (
                 e2.choices, sorted(e2.results.items())):
             print(f'HARNESS-ERROR: {name} is not deterministic under the '
@@ -603,7 +646,7 @@ def run():
     rep.require(rep.coverage.get('lock_waits', 0) > 0,
                 'no schedule ever made a thread wait for a port lock')
     rep.require(all(d['distinct_outcomes'] >= 2 for k, d in per_prog.items()
-                    if not k.startswith(('P3', 'P6', 'P7'))),
+                    if not k.startswith(('P3', 'P6', 'P7', 'P8'))),
                 'a program showed a single outcome: nothing collided')
     return rep
 
@@ -615,7 +658,8 @@ def check_case(case):
     for size in (1, 2):
         progs = programs(mido, size)
         exe, obs = es.run_schedule(progs[case['program']], case['choices'],
-                                   watched_files(mido, case['program']))
+                                   watched_files(mido, case['program']),
+                                   step_budget(case['program']))
         judge(case['program'], exe, obs, case['choices'],
               lambda k, w, c=None: out.append((k, w)), set())
         if out:
